@@ -43,13 +43,25 @@ class Ctx:
 THOROUGH_EXTRA_CONFIGS = ['all']   # cargo feature sets that build offline besides `default` (server == default; client alone does not compile)
 
 
+def _guarded(fn, ctx):
+    """a rule that meets a shape it was not written for must fail closed, with a diagnosable message, not crash the check"""
+    import traceback
+    try:
+        fn(ctx)
+    except Exception as ex:
+        tb = traceback.extract_tb(ex.__traceback__)
+        where = '%s:%d' % (tb[-1].filename.rsplit('/', 1)[-1], tb[-1].lineno) if tb else '?'
+        ctx.r.lost('engine', 'rule-aborted@' + where.split(':')[0], 'the rule met code it does not recognise and stopped (%s: %s at %s); the remaining obligations of this property were not examined'
+                   % (type(ex).__name__, str(ex)[:120], where))
+
+
 def run_property(prop, tier, replay=None, features='default'):
     """quick: the rules of the property over the default feature configuration.
     thorough: the same rules (plus a module's run_thorough, when it has one) over every feature configuration that
     builds offline; the obligations of all configurations go into one report, tagged with the configuration."""
     mod = importlib.import_module('analysis.rules.' + prop)
     ctx = Ctx(prop, tier, features)
-    mod.run(ctx)
+    _guarded(mod.run, ctx)
     if tier == 'thorough':
         if hasattr(mod, 'run_thorough'):
             mod.run_thorough(ctx)
@@ -61,7 +73,7 @@ def run_property(prop, tier, replay=None, features='default'):
             ctx2 = Ctx(prop, tier, feat)
             facts2 = ctx2.r.extra.get('facts', {})
             ctx2.r = ctx.r
-            mod.run(ctx2)
+            _guarded(mod.run, ctx2)
             if hasattr(mod, 'run_thorough'):
                 mod.run_thorough(ctx2)
             for o in ctx.r.obls[n0:]:
